@@ -1,9 +1,144 @@
 ---------------------------- MODULE MC_KeyParser ----------------------------
+(* 1. Exhaustive model check of the line machine of KeyParser.tla as an      *)
+(*    incremental state machine (one action per physical line / end of input,*)
+(*    every action the code really performs is named) against the property   *)
+(*    sentences of C17 and against the fold TestRun used in trace validation.*)
+(* 2. (GenInit/GenNext) enumeration of ALL line sequences over the alphabet   *)
+(*    that the replay driver feeds to the real stir::KeyParser.               *)
 EXTENDS KeyParser, Json, IOUtils, SequencesExt
-CONSTANTS MaxFull, MaxLen
-VARIABLE x
+CONSTANTS MaxFull,   \* all sequences of at most MaxFull lines over the full alphabet
+          MaxLen     \* plus sequences of up to MaxLen lines whose inner lines are core lines
+VARIABLES hist,      \* ids of the physical lines consumed so far
+          st,        \* machine state of KeyParser.tla
+          ph,        \* "first" (no meaningful line yet) | "loop" (parsing) | "done"
+          acc,       \* text of a continued line waiting for its continuation
+          res,       \* verdict once ph = "done"
+          last       \* what the last action did (for the action properties)
+vars == <<hist, st, ph, acc, res, last>>
+
+NoLast == [kind |-> "none"]
+\* what a line says, independently of the machine state (memoised over all texts that can occur)
+StaticInfo(t) ==
+  LET p == ParseLine(t)
+      k == Resolve(TestAlias, p.kw) IN
+  IF k \notin DOMAIN TestKM THEN [proc |-> "unknown"]
+  ELSE LET e == TestKM[k] IN
+       IF e.proc # "set" THEN [proc |-> e.proc]
+       ELSE [proc |-> "set", var |-> e.var, vec |-> e.vec, idx |-> p.idx, val |-> ReadValue(e, p.rest)]
+InfoMemo == [t \in MemoTexts |-> StaticInfo(t)]
+\* what a meaningful line will do in state s
+Kind(s, t) ==
+  LET f == InfoMemo[t] IN
+  IF f.proc \in {"unknown", "nothing"} THEN "NoOp"
+  ELSE IF f.proc = "start" THEN "StartKey" ELSE IF f.proc = "stop" THEN "StopKey"
+  ELSE IF f.val.none THEN "IgnoreBadValue"
+  ELSE IF f.idx.big \/ (f.idx.n = 0 /\ f.vec > 0) \/ (f.idx.n # 0 /\ f.vec = 0)
+          \/ (f.vec > 0 /\ (f.idx.n < 1 \/ f.idx.n > Len(s.vars[f.var]))) THEN "IndexError"
+  ELSE IF f.idx.n = 0 THEN "AssignScalar" ELSE "AssignIndexed"
+\* the effect of a meaningful line, written directly from what the line says (the fold TestRun of
+\* KeyParser.tla computes it through Process/SetVar; FoldAgrees compares the two formulations)
+Effect(s, t) ==
+  LET f == InfoMemo[t]
+      kind == Kind(s, t) IN
+  CASE kind = "StartKey" -> [s EXCEPT !.status = "parsing"]
+    [] kind = "StopKey" -> [s EXCEPT !.status = "end"]
+    [] kind = "AssignScalar" -> [s EXCEPT !.vars[f.var] = f.val.v]
+    [] kind = "AssignIndexed" -> [s EXCEPT !.vars[f.var][f.idx.n] = f.val.v]
+    [] kind = "IndexError" -> [s EXCEPT !.err = "IndexError"]
+    [] OTHER -> s
+LastOf(s, t, kind) ==
+  LET f == InfoMemo[t] IN
+  IF kind \in {"AssignScalar", "AssignIndexed"}
+  THEN [kind |-> kind, var |-> f.var, idx |-> f.idx.n, val |-> f.val.v, before |-> s.vars]
+  ELSE [kind |-> kind]
+
+Init == hist = <<>> /\ st = TestInit /\ ph = "first" /\ acc = "" /\ res = "" /\ last = NoLast
+
+LineOf(a) == acc \o StripCR(Alpha[a])
+Meaningful(t) == HasNonBlank(t) \/ t = ""
+Feedable(a) == ph \in {"first", "loop"} /\ Len(hist) < MaxFull /\ a \in AlphaIds
+Consume(a) == hist' = Append(hist, a)
+
+\* read_line: "When the line ends with continuation_char, the next line will just be appended"
+ContinueLine(a) == /\ Feedable(a) /\ EndsBackslash(LineOf(a))
+                   /\ Consume(a) /\ acc' = Chop(LineOf(a)) /\ UNCHANGED <<st, ph, res>> /\ last' = [kind |-> "ContinueLine"]
+\* read_and_parse_line: a line of blanks only is skipped (also before the start key)
+SkipBlankLine(a) == /\ Feedable(a) /\ ~EndsBackslash(LineOf(a)) /\ ~Meaningful(LineOf(a))
+                    /\ Consume(a) /\ acc' = "" /\ UNCHANGED <<st, ph, res>> /\ last' = [kind |-> "SkipBlankLine"]
+Line(a, phase, kind) == /\ Feedable(a) /\ ph = phase /\ ~EndsBackslash(LineOf(a)) /\ Meaningful(LineOf(a))
+                        /\ Kind(st, LineOf(a)) = kind
+                        /\ Consume(a) /\ acc' = "" /\ last' = LastOf(st, LineOf(a), kind)
+\* the first meaningful line
+StartKey(a) == Line(a, "first", "StartKey") /\ st' = Effect(st, LineOf(a)) /\ ph' = "loop" /\ res' = res
+\* FirstLineBeforeStart: the first line is processed (variables are assigned, errors raised) although
+\* parsing has not started; then "required first keyword not found": rejected
+FirstLineBeforeStart(a) == /\ ph = "first" /\ Feedable(a) /\ ~EndsBackslash(LineOf(a)) /\ Meaningful(LineOf(a))
+                           /\ Kind(st, LineOf(a)) # "StartKey"
+                           /\ Consume(a) /\ acc' = "" /\ last' = LastOf(st, LineOf(a), Kind(st, LineOf(a)))
+                           /\ st' = Effect(st, LineOf(a)) /\ ph' = "done"
+                           /\ res' = IF st'.err # NoErr THEN "error" ELSE "rejected"
+\* lines while parsing
+StartKeyAgain(a) == Line(a, "loop", "StartKey") /\ UNCHANGED <<st, ph, res>>
+StopKey(a) == Line(a, "loop", "StopKey") /\ st' = Effect(st, LineOf(a)) /\ ph' = "done" /\ res' = "accepted"
+NoOpLine(a) == Line(a, "loop", "NoOp") /\ UNCHANGED <<st, ph, res>>          \* unknown key, comment, empty line, ignored key
+IgnoreBadValue(a) == Line(a, "loop", "IgnoreBadValue") /\ UNCHANGED <<st, ph, res>>   \* no ':=', no value, value of the wrong type
+AssignScalar(a) == Line(a, "loop", "AssignScalar") /\ st' = Effect(st, LineOf(a)) /\ UNCHANGED <<ph, res>>
+AssignIndexed(a) == Line(a, "loop", "AssignIndexed") /\ st' = Effect(st, LineOf(a)) /\ UNCHANGED <<ph, res>>
+IndexError(a) == Line(a, "loop", "IndexError") /\ st' = Effect(st, LineOf(a)) /\ ph' = "done" /\ res' = "error"
+\* end of input.  A pending continued line is processed as it stands (ContinuationAtEof).
+PendingKind == IF acc # "" /\ Meaningful(acc) THEN Kind(st, acc) ELSE "none"
+EofBeforeStart == /\ ph = "first" /\ PendingKind # "StartKey"
+                  /\ st' = IF PendingKind = "none" THEN st ELSE Effect(st, acc)
+                  /\ ph' = "done" /\ res' = IF st'.err # NoErr THEN "error" ELSE "rejected"
+                  /\ acc' = "" /\ last' = [kind |-> "EofBeforeStart"] /\ UNCHANGED hist
+\* EofAccept: "early EOF" is only a warning, the stop key is not required
+EofAccept == /\ ph = "loop" \/ (ph = "first" /\ PendingKind = "StartKey")
+             /\ st' = IF PendingKind = "none" THEN [st EXCEPT !.status = "end"]
+                      ELSE LET s2 == Effect(st, acc) IN IF s2.err # NoErr THEN s2 ELSE [s2 EXCEPT !.status = "end"]
+             /\ ph' = "done" /\ res' = IF st'.err # NoErr THEN "error" ELSE "accepted"
+             /\ acc' = "" /\ last' = [kind |-> "EofAccept"] /\ UNCHANGED hist
+
+Next == \/ \E a \in AlphaIds : \/ ContinueLine(a) \/ SkipBlankLine(a) \/ StartKey(a) \/ FirstLineBeforeStart(a) \/ StartKeyAgain(a)
+                               \/ StopKey(a) \/ NoOpLine(a) \/ IgnoreBadValue(a) \/ AssignScalar(a) \/ AssignIndexed(a) \/ IndexError(a)
+        \/ EofBeforeStart \/ EofAccept
+Spec == Init /\ [][Next]_vars
+
+(* ------------------------------ invariants -------------------------------- *)
+\* "Arbitrary, malformed or truncated parameter files ... either parse into an internally consistent
+\* object or are rejected": the incremental machine and the fold used for trace validation agree on
+\* verdict and variables for every input, whether or not the last line ends with a newline
+FoldAgrees == ph = "done" => \A nl \in BOOLEAN : LET x == TestRun(TextsOf(hist), nl) IN x.verdict = res /\ x.st.vars = st.vars
+\* "vectorised keys are stored at the index given" (and nothing else changes)
+StoredAtIndex == last.kind = "AssignIndexed" =>
+                   /\ st.vars[last.var][last.idx] = last.val
+                   /\ Len(st.vars[last.var]) = Len(last.before[last.var])
+                   /\ \A j \in 1..Len(st.vars[last.var]) : j # last.idx => st.vars[last.var][j] = last.before[last.var][j]
+                   /\ \A v \in DOMAIN st.vars : v # last.var => st.vars[v] = last.before[v]
+ScalarStored == last.kind = "AssignScalar" => /\ st.vars[last.var] = last.val
+                                              /\ \A v \in DOMAIN st.vars : v # last.var => st.vars[v] = last.before[v]
+\* "aliases resolve to their target"
+AliasResolves == ph # "done" => /\ Process(st, "old int := 9") = Process(st, "scalar int := 9")
+                                /\ Process(st, "old vec[2] := 6") = Process(st, "vec key[2] := 6")
+                                /\ Process(st, "OLD_vec [2] := 6") = Process(st, "vec key[2] := 6")
+\* "Keyword matching ignores case and white space as documented"
+SpellingIgnored == ph # "done" => /\ Process(st, "SCALAR_int:=6") = Process(st, "scalar int := 6")
+                                  /\ Process(st, "  !Vec__KEY [3]:=13") = Process(st, "vec key[3] := 13")
+                                  /\ Process(st, "!END__test  := ") = Process(st, "End Test :=")
+                                  /\ Process(st, "enum key := BETA_gamma") = Process(st, "enum key := beta gamma")
+\* parsing never starts without the start key, and an error or the stop key ends it
+StartRequired == ph = "loop" => \E k \in 1..Len(hist) : InfoMemo[StripCR(Alpha[hist[k]])].proc = "start"
+ErrorIsFinal == st.err # NoErr => ph = "done" /\ res = "error"
+Bounded == \A v \in {"vec", "vlist"} : Len(st.vars[v]) = Len(TestVars[v])     \* a parser never resizes a vectorised variable
+ASSUME /\ Standardise("  start_TEST") = "start test" /\ Standardise("!END__test  ") = "end test"
+       /\ Standardise("a \t_!b") = "a b" /\ Standardise(" _!\t") = ""
+       /\ \A a \in AlphaIds : Standardise(Standardise(GetKeyword(Alpha[a]))) = Standardise(GetKeyword(Alpha[a]))
+       /\ GetKeyword("a:b := 1") = "a:b " /\ GetKeyword("k[1] := 2") = "k" /\ GetIndex("k[ 12 ] := 2").n = 12
+       /\ GetIndex("k[4294967297] := 2").big /\ GetIndex("k := v[3]") = NoIndex
+
+(* ------------------ enumeration for the replay (part a) ------------------- *)
 More(p) == TestRun(TextsOf(p), TRUE).more
 Ext(P, A) == UNION { {Append(p, a) : a \in A} : p \in {q \in P : More(q)} }
+\* after the parser has stopped one more line is appended: it must not be read any more
 DeadProbe == 29
 Dead(P) == {Append(p, DeadProbe) : p \in {q \in P : ~More(q)}}
 RECURSIVE FullLevel(_)
@@ -15,6 +150,8 @@ DeepSeqs == UNION {Ext(CoreLevel(n - 1), AlphaIds) : n \in (MaxFull + 1)..MaxLen
 Rec(p, nl) == [e |-> "Run", ids |-> p, nl |-> nl, text |-> TextsOf(p)]
 Runs == {Rec(p, nl) : p \in FullSeqs, nl \in BOOLEAN} \cup {Rec(p, TRUE) : p \in DeepSeqs}
 GenFile == IF "GEN" \in DOMAIN IOEnv THEN IOEnv.GEN ELSE "gen.ndjson"
-Init == x = 0 /\ PrintT(<<"RUNS", Cardinality(FullSeqs), Cardinality(DeepSeqs)>>) /\ ndJsonSerialize(GenFile, SetToSeq(Runs))
-Next == x' = x /\ FALSE
+GenInit == /\ hist = <<>> /\ st = TestInit /\ ph = "gen" /\ acc = "" /\ res = "" /\ last = NoLast
+           /\ PrintT(<<"RUNS", Cardinality(FullSeqs), Cardinality(DeepSeqs)>>)
+           /\ ndJsonSerialize(GenFile, SetToSeq(Runs))
+GenNext == FALSE /\ UNCHANGED vars
 =============================================================================
